@@ -7,6 +7,7 @@ import PdsVerif.Props.C01
 import PdsVerif.Props.C02
 import PdsVerif.Props.C04
 import PdsVerif.Props.C08
+import PdsVerif.Props.C12
 import PdsVerif.Props.C14
 import PdsVerif.Props.C15
 import PdsVerif.Props.C16
